@@ -1,6 +1,6 @@
 (* C08: ReadN over an arbitrary chunking reader refines "take n bytes of the stream" (from the design-phase probe, now
    over the constant translated from readbuffer.go). *)
-From Coq Require Import NArith List Lia Arith Bool.
+From Coq Require Import NArith ZArith List Lia Arith Bool.
 Import ListNotations.
 From Fit Require Import Model.ReadBuf.
 
@@ -212,3 +212,43 @@ Proof. apply Nat.leb_le. vm_compute. reflexivity. Qed.
 
 Lemma rb_new_inv size : inv (rb_new size).
 Proof. unfold inv, rb_new, clamp_size. cbn [cur last buf]. rewrite repeat_length. lia. Qed.
+
+(* ---- a reused buffer: Reset keeps or replaces the array; the window is always RESERVED + clamp(size) long and within the
+   capacity, whatever the buffer was used with before *)
+Lemma clamp_ge size : RESERVED <= clamp_size size. Proof. unfold clamp_size. lia. Qed.
+
+Theorem rb_reset_ok (s : rstate) size :
+  exists s', rb_reset s size = Ok s' /\ inv (fst s') /\ length (buf (fst s')) = RESERVED + clamp_size size /\
+             pending (fst s') = [] /\ rb_cap s <= rb_cap s' /\
+             (RESERVED + clamp_size size <= rb_cap s -> rb_cap s' = rb_cap s).
+Proof.
+  unfold rb_reset, rb_cap. destruct s as [b tl]. cbn [fst snd].
+  pose proof (clamp_ge size) as Hc. pose proof RESERVED_val as HR.
+  set (k := clamp_size size) in *. rewrite <- app_length.
+  set (arr := buf b ++ tl) in *.
+  destruct (Z.ltb_spec (Z.of_nat (length arr) - Z.of_nat RESERVED) (Z.of_nat k)) as [Hlt | Hge].
+  - assert (Hl : length (repeat 0%N (RESERVED + k)) = RESERVED + k) by apply repeat_length.
+    rewrite Hl. rewrite Nat.ltb_irrefl. eexists; split; [reflexivity|]. cbn [fst snd buf cur last].
+    rewrite firstn_all2 by lia. rewrite skipn_all2 by lia. rewrite Hl. cbn [length].
+    unfold inv, pending. cbn [buf cur last]. rewrite Hl. repeat split; try lia.
+  - assert (Hle : RESERVED + k <= length arr) by lia.
+    destruct (Nat.ltb_spec (length arr) (RESERVED + k)) as [Hbad | _]; [lia|].
+    eexists; split; [reflexivity|]. cbn [fst snd buf cur last].
+    rewrite firstn_length, skipn_length. unfold inv, pending. cbn [buf cur last]. rewrite firstn_length.
+    repeat split; try lia.
+Qed.
+
+(* any history of resets and reads leaves a buffer on which the next Reset succeeds: by rb_reset_ok no state is needed *)
+Corollary rb_reset_never_panics s size : rb_reset s size <> Panic.
+Proof. destruct (rb_reset_ok s size) as [s' [H _]]. rewrite H. discriminate. Qed.
+
+(* a reused buffer serves the stream like a fresh one of the same size option *)
+Theorem reused_like_fresh s size r ns : Forall (fun n => n <= RESERVED) ns ->
+  exists s', rb_reset s size = Ok s' /\
+  map erase_kind (run_script (fst s') r ns) = map erase_kind (run_script (rb_new size) r ns).
+Proof.
+  intros Hns. destruct (rb_reset_ok s size) as [s' [H [Hinv [_ [Hp _]]]]].
+  exists s'. split; [exact H|]. apply scripts_agree; try assumption.
+  - apply rb_new_inv.
+  - unfold stream. rewrite Hp. unfold pending, rb_new. cbn [cur last buf]. reflexivity.
+Qed.
